@@ -67,6 +67,8 @@ pub struct Shared {
     /// the server->client stream ends (EOF) at this length
     pub closed_at: Option<usize>,
     pub read_err: bool,
+    /// reads fail once the client has read this many bytes (what was in flight before the error is still readable)
+    pub read_err_at: Option<usize>,
     pub write_err: bool,
     pub c2s: Vec<u8>,
     pub server: SimServer,
@@ -133,6 +135,14 @@ impl AsyncRead for MockIo {
             let chunk = s.s2c[start..start + n].to_vec();
             s.log.push(Obs::Read(chunk));
             return Poll::Ready(Ok(()));
+        }
+        if let Some(at) = s.read_err_at {
+            if s.read_pos >= at.min(s.s2c.len()) {
+                s.activity += 1;
+                s.saw_read_err = true;
+                s.log.push(Obs::ReadErr);
+                return Poll::Ready(Err(io::Error::new(io::ErrorKind::ConnectionReset, "injected read error behind the data in flight")));
+            }
         }
         if let Some(end) = s.closed_at {
             if s.read_pos >= end.min(s.s2c.len()) {
@@ -262,6 +272,8 @@ pub enum FaultKind {
     /// like Close, and every later write fails (connection reset)
     CloseRst,
     ReadErr,
+    /// the connection fails behind the data in flight: p more bytes are still readable, the read after them fails
+    ReadErrAfter,
     WriteErr,
     Garbage,
     /// malformed bytes without a line end, then silence (the connection stays open)
@@ -416,6 +428,7 @@ pub enum Ev {
     Close(usize),
     CloseRst(usize),
     ReadErr,
+    ReadErrAfter(usize),
     WriteErr,
     Garbage,
     GarbageOpen,
@@ -446,6 +459,7 @@ impl Ev {
             Ev::Close(p) => format!("Close({p})"),
             Ev::CloseRst(p) => format!("CloseRst({p})"),
             Ev::ReadErr => "ReadErr".into(),
+            Ev::ReadErrAfter(p) => format!("ReadErrAfter({p})"),
             Ev::WriteErr => "WriteErr".into(),
             Ev::Garbage => "Garbage".into(),
             Ev::GarbageOpen => "GarbageOpen".into(),
@@ -453,7 +467,7 @@ impl Ev {
         }
     }
     pub fn is_fault(&self) -> bool {
-        matches!(self, Ev::Close(_) | Ev::CloseRst(_) | Ev::ReadErr | Ev::WriteErr | Ev::Garbage | Ev::GarbageOpen | Ev::DropHandles)
+        matches!(self, Ev::Close(_) | Ev::CloseRst(_) | Ev::ReadErr | Ev::ReadErrAfter(_) | Ev::WriteErr | Ev::Garbage | Ev::GarbageOpen | Ev::DropHandles)
     }
 }
 
@@ -1252,6 +1266,16 @@ impl World {
                         }
                     }
                     FaultKind::ReadErr => alts.push(Ev::ReadErr),
+                    FaultKind::ReadErrAfter => {
+                        // (p = 0 would be ReadErr with nothing in flight; with bytes in flight it differs: they stay readable)
+                        let mut v = vec![undelivered];
+                        v.extend(self.split_points());
+                        v.sort();
+                        v.dedup();
+                        for p in v.into_iter().filter(|&p| p > 0) {
+                            alts.push(Ev::ReadErrAfter(p));
+                        }
+                    }
                     FaultKind::WriteErr => alts.push(Ev::WriteErr),
                     FaultKind::Garbage => alts.push(Ev::Garbage),
                     FaultKind::GarbageOpen => alts.push(Ev::GarbageOpen),
@@ -1428,6 +1452,18 @@ impl World {
                 s.read_err = true;
                 s.wake_reader();
             }
+            Ev::ReadErrAfter(p) => {
+                self.faults_used += 1;
+                self.fault = Some((ev.clone(), self.step));
+                let mut s = self.sh();
+                let end = (s.delivered + p).min(s.s2c.len());
+                s.s2c.truncate(end);
+                // the bytes in front of the failure and the failure arrive together
+                s.delivered = end;
+                s.read_err_at = Some(end);
+                s.server.dead = true;
+                s.wake_reader();
+            }
             Ev::WriteErr => {
                 self.faults_used += 1;
                 self.fault = Some((ev.clone(), self.step));
@@ -1545,6 +1581,7 @@ async fn run_async(scn: &Scenario, chooser: &mut dyn Chooser) -> Result<Trace, S
         read_waker: None,
         closed_at: None,
         read_err: false,
+        read_err_at: None,
         write_err: false,
         c2s: Vec::new(),
         server,
